@@ -25,6 +25,9 @@ func runC09(c *report.Ctx) {
 	p := c.P
 	ruleSchema(c, []string{"nsUnmined", "nsUnminedInputs", "nsUnminedCredits", "nsUnminedGameHistory"}, 15, 5)
 	ruleMinedCreditShortcutBlockOnly(c)
+	ruleUnminedCreditCheckedPerOutput(c)
+	ruleEveryRecordedSpenderConsidered(c)
+	rulePendingInputRowOwners(c)
 
 	c.Rule("settle-pairing", "confirmation, conflict removal and rollback move a transaction between the pending and the mined buckets completely (every part of the record) and in the order that keeps the confirming transaction out of its own conflict purge", 9)
 	insertMined := fn(c, pkgTxmgr, "TxStore", "insertMinedTx")
